@@ -333,8 +333,12 @@ def run_history(ctx, case, every_step=True, wsgi=True):
                         hv['order'] = model.tick()
                         hv['choice'] = op['choice'] if hv['sig'] == sg else hv['choice']
                 hv['pair'][op['type']] = tag
-                # (if the rule is now spelled with other filters it is unknown which filters the node carries: the slot stays unjudged)
-                hv['known'][op['type']] = hv['sig'] == sg or any(hv['known'])
+                # While nothing is known about the node (it may or may not have survived the prefix removal), an accepted installation under
+                # another filter spelling leaves it open which filters the node carries (created anew, or installed in place without a filter
+                # check): from then on the entry stays unjudged until it is removed explicitly.
+                if not any(hv['known']) and hv['sig'] != sg:
+                    hv['ambiguous'] = True
+                hv['known'][op['type']] = any(hv['known']) or not hv.get('ambiguous')
                 model.flags.add('hook_op')
             elif hv is not None and all(hv['known']):
                 raise CheckFailure(f'{what}: add_hook({text!r}) on a pattern that already holds hooks was rejected')
